@@ -113,6 +113,8 @@ func runC03(ctx *Ctx) {
 	defer pc.run(ctx)
 	tb := newCorr("textblocks")
 	defer tb.run(ctx)
+	fl := newCorr("filters")
+	defer fl.run(ctx)
 	ctx.Rep.Rule = "pages with many simple paragraphs (text, br, b/i/em/strong/span/u/code/font/a incl. javascript: anchors) in body, list items, blockquotes and table cells, between other block kinds; distinct by structure; non-trivial = at least one simple paragraph kept and one dropped in the same page"
 	contentRun{id: "C03", n: [2]int{500, 20000}, url: pageURL,
 		corr: func(ctx *Ctx, x *distilled, replay interface{}) {
@@ -120,8 +122,13 @@ func runC03(ctx *Ctx) {
 			checkPlainAtoms(ctx, x, replay)
 			addTextBlocksCase(tb, x.Src, pageURL, true, replay)
 			addTextBlocksCase(tb, x.Src, pageURL, false, replay)
+			addFiltersCase(fl, ctx.Rep, x.Src, pageURL, true, replay)
+			addFiltersCase(fl, ctx.Rep, x.Src, pageURL, false, replay)
 		},
 		weights: []W{{"para", 40}, {"shortpara", 20}, {"heading", 4}, {"list", 10}, {"quote", 8}, {"datatable", 5}, {"layouttable", 5}, {"links", 6}, {"figure", 2}, {"img", 2}, {"divwrap", 8}, {"unlikely", 3}, {"form", 2}, {"hidden", 2}},
+		extra: func(ctx *Ctx, i int, r *Rng) []string {
+			return []string{newPageGen(newRng(ctx.Seed, fmt.Sprintf("C03/fs/%d", i))).FilterStressPage()}
+		},
 		oracle: func(ctx *Ctx, x *distilled, replay interface{}) bool {
 			n, k, d := oracleC03(ctx.Rep, x, replay)
 			ctx.Rep.histN("simple-paragraphs", n)
